@@ -75,6 +75,41 @@ def h_quad(h, name, e):
     h.claim(f'C11/quad/{name}/returns-integral-value', h.eq(pi, h.real('quad0_value')))
 
 
+def h_quad_int(h, name, e, kind):
+    """an integer-typed pressure (Python int, numpy integer, or through ModelIsotherm.spreading_pressure_at) gets the same
+    treatment as the float: the value returned is the integral the quadrature reported, not a truncation of it"""
+    from scipy import integrate
+    m = get_model(name)
+    fixed = {EXP_PARAM[name]: e} if e is not None else None
+    sym_params(h, m, fixed)
+    rec = stubs.QuadRecorder(h, concrete=7.5625)      # (a non-integral value: a result buffer of integer dtype would truncate it)
+    pint = {'int': 2, 'numpy-int': numpy.int64(3), 'isotherm': 2, 'int-array': numpy.array([2, 3])}[kind]
+    if name in ('DR', 'DA'):
+        pint = {'int': 1, 'numpy-int': numpy.int64(1), 'isotherm': 1, 'int-array': numpy.array([1, 1])}[kind]     # p/p0 <= 1
+    with stubs.patched((integrate, 'quad', rec)):
+        if kind == 'isotherm':
+            T, ads = isofix.sym_env(h)
+            iso = isofix.model_iso(h, m, ads=ads, T=T)
+            pi = iso.spreading_pressure_at(pint)
+        else:
+            pi = m.spreading_pressure(pint)
+    cid = f'C11/quad-int/{name}/{kind}'
+    vals = list(numpy.asarray(pi, dtype=object).ravel())
+    h.claim(f'{cid}/one-value-per-pressure', len(vals) == (2 if kind == 'int-array' else 1) and len(rec.calls) >= 1, info=f'{len(vals)} values, {len(rec.calls)} calls')
+    # every reported value is (a sum of) what the quadrature returned - compare with the float-typed call
+    rec2 = stubs.QuadRecorder(h, concrete=7.5625)
+    pf = numpy.asarray(pint, dtype=float) if kind == 'int-array' else float(pint)
+    with stubs.patched((integrate, 'quad', rec2)):
+        pif = iso.spreading_pressure_at(pf) if kind == 'isotherm' else m.spreading_pressure(pf)
+    valsf = list(numpy.asarray(pif, dtype=object).ravel())
+    ok = len(vals) == len(valsf)
+    r = True
+    if ok:
+        for a, b in zip(vals, valsf):
+            r = r & h.eq(a, b)
+    h.claim(f'{cid}/same-value-as-for-the-float-typed-pressure', ok and r)
+
+
 def _oracle_pi(h, ps, ns, q, seg):
     """closed form of int_0^q f/p dp for the piecewise-linear interpolant f continued by Henry's law;
     seg = index j with p_j <= q (q in segment [p_j, p_{j+1}]), or -1 on the Henry segment"""
@@ -277,6 +312,10 @@ def obligations(tier):
         for e in exps(tier, name):
             obs.append(Obligation(f'C11/quad/{name}[{e}]', h_quad, (name, e), funcs=mf(name), stubs=['scipy.integrate.quad recorder'],
                                   bounds=f'reals; exponent={e}', timeout_s=t, closure=name in ('DR', 'DA')))
+        for kind in ('int', 'numpy-int', 'isotherm'):      # (array pressures are not supported by scipy's quad: not claimed)
+            e0 = exps(tier, name)[0]
+            obs.append(Obligation(f'C11/quad-int/{name}/{kind}', h_quad_int, (name, e0, kind), funcs=mf(name), stubs=['scipy.integrate.quad recorder'],
+                                  bounds='integer-typed pressure 1..3', timeout_s=t))
     pf = ['pygaps.core.pointisotherm:PointIsotherm.spreading_pressure_at', 'pygaps.core.pointisotherm:PointIsotherm.loading_at',
           'pygaps.utilities.isotherm_interpolator:IsothermInterpolator.__init__']
     ks = [3, 4] if tier == 'quick' else [2, 3, 4, 5]
